@@ -320,6 +320,25 @@ def group_history(blocks, history, passed=None):
     return [([k[1], k[2]], [e for e in locs[k] if e[2] is not None]) for k in sorted(locs)]
 
 
+def history_from_table(data, blocks):
+    """Plain-data view (blocks, history) of a cfiDirectives table (mapping
+    Offset -> [(name, operands, Symbol | UUID)]) restricted to ``blocks``
+    (objects with .address and .size).  Duck-typed: imports nothing."""
+    index = {id(b): i for i, b in enumerate(blocks)}
+    hist = []
+    for off, lst in data.items():
+        bi = index.get(id(off.element_id))
+        if bi is None:
+            continue
+        if not lst:
+            hist.append([bi, off.displacement, None, [], None])
+        for name, ops, sym in lst:
+            nm = getattr(sym, "name", None)
+            ref = nm if isinstance(nm, str) else (None if getattr(sym, "int", 1) == 0 else {"dangling": getattr(sym, "int", -1)})
+            hist.append([bi, off.displacement, name, list(ops), ref])
+    return [{"addr": b.address, "size": b.size} for b in blocks], hist
+
+
 ERROR_CLASSES = {"abi-refusal": ["NotImplementedError"]}
 
 
